@@ -3,12 +3,17 @@ import YorkieModel.Driver.Proto
 import YorkieModel.Driver.TimeEngine
 import YorkieModel.Driver.CrdtEngine
 import YorkieModel.Driver.DocUpdEngine
+import YorkieModel.Driver.ChangeStoreEngine
+import YorkieModel.Driver.LruEngine
 open Yorkie.Driver
 
 def engines : List (String × Engine) := [
   ("time", TimeEngine.engine),
   ("crdt", CrdtEngine.engine),
-  ("docupd", DocUpdEngine.engine)
+  ("docupd", DocUpdEngine.engine),
+  ("store", ChangeStoreEngine.engine),
+  ("storex", ChangeStoreEngine.engine),
+  ("lru", LruEngine.engine)
 ]
 
 partial def loop (e : Engine) (h : IO.FS.Stream) (out : IO.FS.Stream) (st : e.State) : IO Unit := do
